@@ -9,36 +9,52 @@ import OdxVerif.Proofs.CompDescribed
 namespace OdxVerif.Codec
 open OdxVerif.Bits OdxVerif.OdxM
 
-/-- `dcomp_roundtrip_msg` with the returned cursor: the decoder stops where the encoder stopped, `c.size` bytes behind the
-    first byte.  Also for a stand-alone STRUCTURE with BYTE-SIZE (`bs`). -/
-theorem dcomp_roundtrip_msg_cur (c : DComp) (hok : c.Ok) (bs : Option Nat) (ps : List Param) (hdop : c.dop = .struct bs ps)
-    (hneed : c.need ≤ modelFuel) (trig : Option Bytes) (pdu : Bytes) (hpre : c.decPre { msg := pdu })
+/-- the message-level argument, from exactly what it uses: the pair composes, the model's encoder equals it from the initial
+    state of `Request.encode` / `Response.encode`, the model's decoder equals it on the PDU, and the decoder's extra
+    precondition holds once the decoder is known to stop where the encoder stopped -/
+theorem roundtrip_msg_core (c : DComp) (bs : Option Nat) (ps : List Param) (hdop : c.dop = .struct bs ps)
+    (trig : Option Bytes) (pdu : Bytes) (hg : Good c.pair)
+    (henc_eq : ∃ s', encodeDop modelFuel c.dop c.sup { trig := trig, isEndOfPdu := true } true = .ok ((), s') ∧
+      SameCore s' (c.pair.enc { trig := trig, isEndOfPdu := true }))
+    (hcur : (c.pair.enc { trig := trig, isEndOfPdu := true }).cursorByte = c.size)
+    (hdec : c.pair.fits { msg := pdu } → c.decPre { msg := pdu } →
+      decodeDop modelFuel c.dop { msg := pdu } true = .ok ((c.pair.dec { msg := pdu }).1, (c.pair.dec { msg := pdu }).2))
+    (hpre : (c.pair.dec { msg := pdu }).2.cursorByte = c.size → c.decPre { msg := pdu })
     (henc : encodeMessage bs ps c.sup trig true = .ok (pdu, 0)) :
     decodeMessage bs ps pdu true = .ok (c.pair.val, c.size) ∧ pdu = (c.pair.enc { trig := trig, isEndOfPdu := true }).msg := by
   let s0 : EncState := { trig := trig, isEndOfPdu := true }
-  obtain ⟨s1, hrun, hcore, _⟩ := hok.encode_eq modelFuel hneed s0 rfl (fun _ => rfl)
+  obtain ⟨s1, hrun, hcore⟩ := henc_eq
   rw [hdop] at hrun
   have hrun' : encodeDop modelFuel (.struct bs ps) c.sup { trig := trig, isEndOfPdu := true } true = .ok ((), s1) := hrun
   unfold encodeMessage at henc
   rw [hrun'] at henc
   simp only [Except.ok.injEq, Prod.mk.injEq] at henc
   obtain ⟨hpdu, hwarn⟩ := henc
-  have hg := hok.good
   have hall : AllBytes s0.msg := by intro b hb; cases hb
   have hm : (c.pair.enc s0).msg = pdu := by rw [← hcore.1]; exact hpdu
   have hw : (c.pair.enc s0).warn = s0.warn := by rw [← hcore.2.2.1]; exact hwarn
-  obtain ⟨hv, hcur, _, _, hfit⟩ := hg.rt s0 { msg := pdu } hall hw rfl rfl
+  obtain ⟨hv, hcur', _, _, hfit⟩ := hg.rt s0 { msg := pdu } hall hw rfl rfl
     (by rw [← hm]; exact hg.allBytes s0 hall) (by rw [hm]; exact Nat.le_refl _) (by intro a _; rw [hm])
-  have hdec := hok.decode_eq modelFuel hneed { msg := pdu } rfl hfit hpre
-  rw [hdop] at hdec
-  have hsize : (c.pair.dec { msg := pdu }).2.cursorByte = c.size := by
-    rw [hcur, hok.enc_cursor s0]
-    show 0 + c.size = c.size
-    omega
+  have hsize : (c.pair.dec { msg := pdu }).2.cursorByte = c.size := by rw [hcur']; exact hcur
+  have hdec' := hdec hfit (hpre hsize)
+  rw [hdop] at hdec'
   refine ⟨?_, hm.symm⟩
   unfold decodeMessage
-  rw [hdec, hv]
+  rw [hdec', hv]
   simp only [hsize]
+
+/-- `dcomp_roundtrip_msg` with the returned cursor: the decoder stops where the encoder stopped, `c.size` bytes behind the
+    first byte.  Also for a stand-alone STRUCTURE with BYTE-SIZE (`bs`). -/
+theorem dcomp_roundtrip_msg_cur (c : DComp) (hok : c.Ok) (bs : Option Nat) (ps : List Param) (hdop : c.dop = .struct bs ps)
+    (hneed : c.need ≤ modelFuel) (trig : Option Bytes) (pdu : Bytes) (hpre : c.decPre { msg := pdu })
+    (henc : encodeMessage bs ps c.sup trig true = .ok (pdu, 0)) :
+    decodeMessage bs ps pdu true = .ok (c.pair.val, c.size) ∧ pdu = (c.pair.enc { trig := trig, isEndOfPdu := true }).msg := by
+  obtain ⟨s1, hrun, hcore, _⟩ := hok.encode_eq modelFuel hneed { trig := trig, isEndOfPdu := true } rfl (fun _ => rfl)
+  refine roundtrip_msg_core c bs ps hdop trig pdu hok.good ⟨s1, hrun, hcore⟩ ?_
+    (fun hfit hp => hok.decode_eq modelFuel hneed { msg := pdu } rfl hfit hp) (fun _ => hpre) henc
+  rw [hok.enc_cursor]
+  show 0 + c.size = c.size
+  omega
 
 /-- the encoder's cursor behind a list of components, run from the empty state -/
 theorem Comps.cur_eq_enc (gs : List Comp) (hok : Comps.okAll gs) : ((Comps.pair gs).enc {}).cursorByte = Comps.cur gs 0 0 :=
